@@ -62,6 +62,10 @@ fn alpha_for(quick: bool) -> Vec<Op> {
         v.push(wrap(sgr1(u), SP7));
     }
     v.push(wrap(Sgr(vec![vec![Some(4), Some(3)]]), SP7));
+    // a `:` form whose selector is 2 or 5 only modulo 256 / 65536 is no colour form
+    v.push(wrap(Sgr(vec![vec![Some(38), Some(261), Some(7)]]), SP7));
+    v.push(wrap(Sgr(vec![vec![Some(48), Some(258), Some(1), Some(2), Some(3)]]), SP7));
+    v.push(wrap(Sgr(vec![vec![Some(38), Some(65285), Some(9)]]), SP7));
     // sequences that end in `m` but are not SGR (a private marker or an intermediate makes
     // them something else, which this terminal does not implement): the pen stays as it is
     for s in ["\x1b[>4;2m", "\x1b[?4m", "\x1b[=1m", "\x1b[<31m", "\x1b[>m", "\x1b[>4;0m", "\u{9b}?1;31m", "\x1b[1 m", "\x1b[31$m", "\u{9b}0!m"] {
